@@ -264,6 +264,15 @@ template <class T> struct Poisoned {
   Poisoned(const Poisoned &) = delete;
 };
 
+// Dirty the stack below the caller with a byte that depends on which event was processed before (0x5A for the first event of a
+// job): an uninitialised local of the generated event code then holds history-dependent garbage, as it holds stale values in a
+// real job.  (Where locals are pattern-initialised by the compiler - every check but C05 - this has no effect.)
+__attribute__((noinline)) inline void scribble(int prev) {
+  volatile unsigned char buf[32768];
+  unsigned char v = prev < 0 ? 0x5A : (unsigned char)(0x11 * (prev + 1) + 3);
+  for (unsigned i = 0; i < sizeof(buf); ++i) buf[i] = v;
+}
+
 struct Plan { int job; std::string tag; std::vector<int> events; };
 inline std::vector<Plan> parse_plan(std::istream &in) {
   std::vector<Plan> ps; std::string tok;
